@@ -353,6 +353,23 @@ pub fn execute(sc: &Scenario) -> Outcome {
                     );
                 }
             }
+            // a rule is a plain value with public example lists: editing a copy in place (same list
+            // lengths) and validating again must reflect the edit
+            if !r.true_positives.is_empty() {
+                let mut edited = r.clone();
+                let _ = guarded(|| edited.validate().is_ok());
+                edited.true_positives[0] = Yaml::String("not a mapping".into());
+                if let Ok(Ok(_)) = guarded(|| edited.validate()) {
+                    push_violation(
+                        &mut vs,
+                        Violation::new(
+                            "validate_ignores_edited_examples",
+                            if *sw == 0 { "unoptimised".into() } else { "optimised".into() },
+                            format!("validate() of the {} rule returned Ok after its first true positive was replaced in place by a non-mapping entry (an earlier validate() on the same value had run)", which),
+                        ),
+                    );
+                }
+            }
             if n_examples > 0 {
                 stats.seen(
                     "nontrivial",
